@@ -31,9 +31,11 @@ EXPLANATION = ("the theorems are about the Lean model at exact real arithmetic f
 
 EPS = float(np.finfo(float).eps)
 F_SAME = "F-C15-same-branch"
-F_BUF = "F-C15-halfplane-buffer"
+# F-C15-halfplane-buffer (3*n row buffer of intersect_halfplanes) is repaired: its witnesses are regression inputs
+# (`regression_halfplanes`) that run first and must return normally; a raise there is a new violation
 F_DROP = "F-C15-vertex-drop"
 F_EXTRA = "F-C15-coincident-lines"
+F_COINC = "F-C15-coincident-fields"
 
 
 # =================================================================== small exact linear algebra
@@ -428,11 +430,28 @@ def vertex_drop_class(case, res, res_swapped):
     return missing
 
 
+def coincident_fields_class(case):
+    """input class of finding F_COINC: the two pressure fields have the same gradient up to rounding (independent
+    recomputation with numpy inverses), so there is no equal-pressure plane to find"""
+    t1, t2 = np.asarray(case["t1"], dtype=float), np.asarray(case["t2"], dtype=float)
+    try:
+        Xa = np.linalg.inv(np.vstack((t1.T, np.ones((1, 4)))))
+        Xb = np.linalg.inv(np.vstack((t2.T, np.ones((1, 4)))))
+    except np.linalg.LinAlgError:
+        return False
+    g1 = (np.asarray(case["e1"], dtype=float) * float(case["E1"])).dot(Xa)
+    g2 = (np.asarray(case["e2"], dtype=float) * float(case["E2"])).dot(Xb)
+    g = float(np.linalg.norm(g1[:3]) + np.linalg.norm(g2[:3]))
+    return g > 0.0 and float(np.linalg.norm(g1[:3] - g2[:3])) <= 1e-9 * g
+
+
 def classify(case, res, what, res_swapped=None):
     """finding id for a failing pair, or None (= new violation)."""
     if what in ("raised", "raised-when-swapped"):
         return None
     if what in ("swap-changes-vertex-set", "swap-changes-intersection") and res_swapped is not None:
+        if not same_branch_class(case, res) and coincident_fields_class(case):
+            return F_COINC
         if not same_branch_class(case, res) and vertex_drop_class(case, res, res_swapped):
             return F_DROP
         if (what == "swap-changes-vertex-set" and not same_branch_class(case, res) and res.get("inter")
@@ -535,6 +554,8 @@ def run_bodies(s1, s2, s3=None):
     objects — body 2 has served as reference body, was re-expressed in another frame, and serves again."""
     hc, _, _, _ = impl()
     out = {}
+    if s3 == "inplace":
+        return run_bodies_inplace(s1, s2)
     try:
         b1, b2 = make_body(s1), make_body(s2)
         if s3 is not None:
@@ -563,11 +584,55 @@ def run_bodies(s1, s2, s3=None):
     return out
 
 
+def _warm_bodies(s1, s2):
+    """the two bodies of (s1, s2) built at ANOTHER configuration (body 1 pushed into body 2) and the world-frame
+    translations that bring them to the configuration of (s1, s2)"""
+    t1, t2 = np.array(s1["t"], dtype=float), np.array(s2["t"], dtype=float)
+    w1 = t2 + 0.3 * (t1 - t2) + np.array([0.011, -0.007, 0.005]) * body_radius(s1)
+    w2 = t2 + np.array([-0.35, 0.2, 0.15]) * body_radius(s2)
+    a1, a2 = dict(s1, t=w1.tolist()), dict(s2, t=w2.tolist())
+    return make_body(a1), make_body(a2), t1 - w1, t2 - w2
+
+
+def run_bodies_inplace(s1, s2):
+    """the observed call is the SECOND one on the same objects: after a first query in another configuration both
+    bodies are moved in place (`body.body2origin_[:3, 3] += v * dt`, as the library's own examples do)"""
+    hc, _, _, _ = impl()
+    out = {}
+    try:
+        b1, b2, m1, m2 = _warm_bodies(s1, s2)
+        hc.find_contact_surface(b1, b2)
+        b1.body2origin_[:3, 3] += m1
+        b2.body2origin_[:3, 3] += m2
+        cs = hc.find_contact_surface(b1, b2)
+        out.update(ok=True, inter=bool(cs.intersection),
+                   planes=np.asarray(cs.contact_planes, dtype=float).reshape(-1, 4).tolist(),
+                   polys=[np.asarray(p, dtype=float).tolist() for p in cs.contact_polygons],
+                   i1=[int(i) for i in cs.intersecting_tetrahedra1], i2=[int(i) for i in cs.intersecting_tetrahedra2],
+                   forces=np.asarray(cs.contact_forces, dtype=float).reshape(-1, 3).tolist(),
+                   areas=np.asarray(cs.contact_areas, dtype=float).reshape(-1).tolist(),
+                   tp1=b1.tetrahedra_points, tp2=b2.tetrahedra_points,
+                   pot1=b1.tetrahedra_potentials, pot2=b2.tetrahedra_potentials)
+        c1, c2, m1, m2 = _warm_bodies(s1, s2)
+        hc.contact_forces(c1, c2)
+        c1.body2origin_[:3, 3] += m1
+        c2.body2origin_[:3, 3] += m2
+        inter, w12, w21 = hc.contact_forces(c1, c2)
+        out.update(cf_inter=bool(inter), w12=np.asarray(w12, dtype=float).tolist(),
+                   w21=np.asarray(w21, dtype=float).tolist())
+    except Exception as e:  # noqa
+        out.update(ok=False, err=err_name(e), msg=str(e)[:200])
+    return out
+
+
 def check_bodies(ctx, s1, s2, separated, stream, s3=None):
     """oracle on one body pair.  `separated` = the bodies are disjoint by construction."""
     r = run_bodies(s1, s2, s3)
     args = {"kind": "bodies", "s1": core.jsonable(s1), "s2": core.jsonable(s2), "separated": bool(separated)}
-    if s3 is not None:
+    if s3 == "inplace":
+        args["s3"] = "inplace"
+        args["history"] = "query in another configuration, both bodies moved in place, query again; the last call is judged"
+    elif s3 is not None:
         args["s3"] = core.jsonable(s3)
         args["history"] = "(b1,b2), (b2,b3), (b1,b2) on the same objects; the last call is judged"
     ctx.count("search:" + stream, key=("bodies", json_key(s1), json_key(s2)))
@@ -615,6 +680,20 @@ def check_bodies(ctx, s1, s2, separated, stream, s3=None):
                 len(p) == 3 and p[0] == p[1] == p[2] for p in r["polys"])) else None
             ctx.fail(fn + ":intersection-for-separated-bodies", args, {"n_polygons": npoly}, "intersection False",
                      "bodies disjoint by construction", finding=fid)
+    if s3 == "inplace" and not stream.startswith("BL"):
+        # the same configuration on freshly built bodies (random poses only: on the lattice the frame-dependent tie
+        # findings would blur the comparison): same flag, same total contact area, same wrenches
+        r0 = run_bodies(s1, s2)
+        if r0.get("ok"):
+            a0, a1 = float(np.sum(r0["areas"])), float(np.sum(r["areas"]))
+            f0 = float(np.sum(np.linalg.norm(np.asarray(r0["forces"], dtype=float).reshape(-1, 3), axis=1)))
+            dw = float(np.max(np.abs(np.array(r0["w12"]) - np.array(r["w12"])))) if r0["w12"] is not None else 0.0
+            if r0["inter"] != r["inter"] or abs(a0 - a1) > 1e-6 * max(a0, a1) + 1e-12 or dw > 1e-6 * f0 * (
+                    1.0 + body_radius(s1) + body_radius(s2)) + 1e-12:
+                ctx.fail(fn + ":moved-in-place-differs-from-fresh-bodies", args,
+                         {"inter": r["inter"], "n_polygons": npoly, "area": a1, "w12": r["w12"]},
+                         {"inter": r0["inter"], "n_polygons": len(r0["polys"]), "area": a0, "w12": r0["w12"]},
+                         "the same configuration on freshly constructed bodies", finding=None)
     return r
 
 
@@ -1265,6 +1344,20 @@ def corr_halfplanes(ctx, cmp, hps, stream, label):
     cmp.add("C15.ih", tokens(n, H), ["P2"], py, 1e-9 * max(sc, pmax), {"fn": "ih", "halfplanes": H.tolist()},
             ordered=True, with_q=lattice, stream=stream)
     ctx.branch("ih-outcome", py.tag[-1] if py.tag[0] == "err" else "points/%d" % len(py.pts))
+    # the pre-repair function (3*n rows) against intersectHalfplanes_asIs_before_fix
+    old = old_intersect_halfplanes()
+    if old is not None:
+        try:
+            pts = old(H)
+            pyo = Obs(("ok",), [], [tuple(p) for p in np.asarray(pts).tolist()], 2)
+            pmax = absmax(pts)
+        except Exception as e:  # noqa
+            pyo = py_err(e)
+            pmax = 1.0
+        cmp.add("C15.ih.before_fix", tokens(n, H), ["P2"], pyo, 1e-9 * max(sc, pmax),
+                {"fn": "ih.before_fix", "halfplanes": H.tolist()}, ordered=True, with_q=lattice, stream=stream)
+        ctx.count("corr:ih.before_fix:" + stream, key=("hpo",) + key[1:])
+        ctx.branch("ih.before_fix-outcome", pyo.tag[-1] if pyo.tag[0] == "err" else "ok")
     # kernels on pairs and probe points
     for _ in range(min(4, n * (n - 1) // 2)):
         i, j = rng.sample(range(n), 2)
@@ -1523,6 +1616,37 @@ def conditioning(X1, X2, n, d, sc):
 
 
 _OLD = {}
+_OLD_IH = {}
+
+
+def old_intersect_halfplanes():
+    """`intersect_halfplanes` with the buffer it had before the repair commit (`3 * len(halfplanes)` rows): the
+    source of the function under test with the allocation line put back (mirror of
+    `intersectHalfplanes_asIs_before_fix`).  If the repository under test still has the old allocation the function
+    itself is returned; None if the allocation line is not recognised."""
+    if "f" in _OLD_IH:
+        return _OLD_IH["f"]
+    _OLD_IH["f"] = None
+    try:
+        import inspect
+        _, _, hp, _ = impl()
+        fn = hp.intersect_halfplanes
+        fn = getattr(fn, "py_func", fn)
+        src = inspect.getsource(fn)
+        if "np.empty((3 * len(halfplanes), 2))" in src:
+            _OLD_IH["f"] = fn
+            return fn
+        new_alloc = "np.empty((n_halfplanes * (n_halfplanes - 1) // 2 + 1, 2))"
+        if new_alloc not in src:
+            return None
+        body = src[src.index("def intersect_halfplanes("):].replace(new_alloc, "np.empty((3 * len(halfplanes), 2))")
+        ns = {"np": np, "intersect_two_halfplanes": hp.intersect_two_halfplanes,
+              "point_outside_of_halfplane": hp.point_outside_of_halfplane}
+        exec(body, ns)  # noqa: S102  (source of the function under test)
+        _OLD_IH["f"] = ns["intersect_halfplanes"]
+    except Exception:  # noqa
+        _OLD_IH["f"] = None
+    return _OLD_IH["f"]
 
 
 def old_make_halfplanes():
@@ -1608,6 +1732,11 @@ def corpus_pairs():
                         [1.030555213379542, 0.7883022423253303, 0.6255885271595433]],
                     e1=[0.0, 0.0, 0.9080250331385077, 0.0], e2=[0.0, 0.0, 0.6824648276325453, 0.0], E1=1.0, E2=1.0,
                     X1=None, X2=None, label="corpus:coincident-lines"))
+    # F_COINC witness: a cylinder-mesh element and a cube-mesh element whose pressure fields are both z + 1
+    out.append(dict(t1=[[2.4458706724972306, 0.9450418679126287, -1.0], [1.3637823263686997, 2.301937735804838, -1.0], [0.4960148481335833, 0.5, -1.0], [0.9298985872511416, 1.400968867902419, 0.0]],
+                    t2=[[1.0, 1.0, -1.0], [1.0, -1.0, -1.0], [-1.0, -1.0, -1.0], [0.0, 0.0, 0.0]],
+                    e1=[0.0, 0.0, 0.0, 1.0], e2=[0.0, 0.0, 0.0, 1.0], E1=1.0, E2=1.0, X1=None, X2=None,
+                    label="corpus:coincident-fields"))
     return out
 
 
@@ -1632,7 +1761,7 @@ def correspondence(ctx):
 def _correspondence(ctx):
     cmp = Cmp(ctx, "corr")
     # corpus
-    for n in (0, 1, 6, 7, 8):
+    for n in (0, 1, 6, 7, 8, 12):
         corr_halfplanes(ctx, cmp, concurrent_halfplanes(n), "L" if n >= 2 else "M", "corpus:concurrent-%d" % n)
     for case in corpus_pairs():
         corr_pair(ctx, cmp, case, "L")
@@ -1666,14 +1795,32 @@ def _correspondence(ctx):
                          "is not compared in this run")
 
 
-def witness_buffer():
-    """F_BUF: the public hydroelastic_contact.intersect_halfplanes on 8 half-planes through one point"""
+def regression_halfplanes(ctx):
+    """witnesses of the repaired finding F-C15-halfplane-buffer (8 and 7 concurrent boundary lines, the empty list)
+    and further lists with many concurrent lines: the public hydroelastic_contact.intersect_halfplanes must return
+    normally (proved for the model: halfplane_buffer_never_overflows) with at most one point per pair"""
     hc, _, _, _ = impl()
-    try:
-        hc.intersect_halfplanes(c_arr(concurrent_halfplanes(8)))
-        return None
-    except Exception as e:  # noqa
-        return err_name(e)
+    cases = [("concurrent-8", concurrent_halfplanes(8), 28), ("concurrent-7", concurrent_halfplanes(7), 21),
+             ("empty", [], 0), ("concurrent-16", concurrent_halfplanes(16), 120), ("single", concurrent_halfplanes(1), 0)]
+    for k in range(ctx.budget(120, 1500)):
+        hps, label = gen_halfplanes(ctx.rng, "L" if k % 3 else "M")
+        cases.append((label, hps, None))
+    for label, hps, want in cases:
+        H = c_arr(hps).reshape(-1, 4)
+        n = len(H)
+        ctx.count("search:halfplanes", key=("reg-hp", label, tuple(flat(H))), nontrivial=n >= 2)
+        args = {"kind": "halfplanes", "halfplanes": H.tolist(), "label": label}
+        try:
+            pts = hc.intersect_halfplanes(H)
+        except Exception as e:  # noqa
+            ctx.fail("intersect_halfplanes:raised", args, {"err": err_name(e), "msg": str(e)[:200]},
+                     "returns normally (buffer of n(n-1)/2+1 rows)", "halfplane_buffer_never_overflows", finding=None)
+            ctx.branch("regression-halfplanes", "raised:" + err_name(e))
+            continue
+        ctx.branch("regression-halfplanes", "ok")
+        if len(pts) > n * (n - 1) // 2 or (want is not None and len(pts) != want):
+            ctx.fail("intersect_halfplanes:count", args, {"n_points": len(pts)},
+                     "%s points" % (want if want is not None else "<= n(n-1)/2"), "one point per pair at most")
 
 
 def search(ctx):
@@ -1685,18 +1832,12 @@ def search(ctx):
 
 def _search(ctx):
     boost = 3 if ctx.extra.get("search_boost") else 1
-    # corpus first
+    # regression inputs of repaired findings and corpus first
+    regression_halfplanes(ctx)
     for case in corpus_pairs():
         check_pair(ctx, case, "corpus")
     for s1, s2, sep, label in corpus_bodies():
         check_bodies(ctx, s1, s2, sep, "corpus")
-    # the recorded witness of the half-plane buffer defect (direct call of the public kernel)
-    w = witness_buffer()
-    ctx.count("search:corpus", key=("witness-buffer",))
-    if w is not None:
-        ctx.fail("intersect_halfplanes:raised", {"kind": "halfplanes", "halfplanes": concurrent_halfplanes(8)},
-                 {"err": w}, "points of the (degenerate) polygon", "28 valid intersections > 24 buffer rows",
-                 finding=F_BUF)
     n = ctx.budget(1500, 15000) * boost
     for k in range(n):
         u = k % 20
@@ -1711,6 +1852,8 @@ def _search(ctx):
             # the same pair at the end of a three-body history (caches of body 2 must follow its re-expression)
             t1, t3, _, _ = gen_bodies(ctx.rng, stream)
             check_bodies(ctx, s1, s2, sep, stream + "-history", s3=t3)
+        if k % 3 == 1:
+            check_bodies(ctx, s1, s2, sep, stream + "-inplace", s3="inplace")
 
 
 def replay(ctx, payload):
@@ -1769,13 +1912,6 @@ PARTIAL = {
                                       "either order); that both orders report the same vertex *set* (completeness, basis "
                                       "independence of the skip/parallel tests) is not proved; checked by the oracle (argument swap), "
                                       "which found F-C15-vertex-drop and F-C15-same-branch",
-    "halfplane_buffer_sufficient_partial": "proved under GeneralPosition (no intersection of line i with a later line within the "
-                                           "EPSILON band of a third later line): at most 2n rows are written; and unconditionally "
-                                           "for n <= 6 (halfplane_buffer_sufficient_small). Not proved: that the 8 half-planes of two "
-                                           "tetrahedra never yield more than 23 valid pairs when lines are concurrent (exact-arithmetic "
-                                           "count for two tetrahedra sharing an edge in the contact plane is 20; the randomised hunt of "
-                                           "this harness has not exceeded 15); halfplane_buffer_overflow shows the buffer is too small "
-                                           "for arbitrary 8 half-planes",
     "pressure_nonneg": "pressure_lower_bound gives total_force >= lo*(sum e_k E)*area from a lower bound lo on the barycentric "
                        "coordinates of the polygon vertices (pinv and solve contracts); with lo = -EPSILON from "
                        "vertex_inside_both_tetrahedra this is 'non-negative up to EPSILON', for kept rows only; exact "
@@ -1799,7 +1935,9 @@ TRUSTED = ["modelled: _halfplanes.py (all 4 functions), _tetrahedron_intersectio
            "compute_contact_polygon, intersect_tetrahedron_pair), compute_contact_force, utils.plane_basis_from_normal; "
            "intersect_tetrahedron_pairs / find_contact_surface / contact_surface_forces are loops over these and are only "
            "exercised by the oracle (bodies from the make_* factories)",
-           "makeHalfplanes_asIs_before_fix is compared with the pre-repair source taken from the repository's git history"]
+           "makeHalfplanes_asIs_before_fix is compared with the pre-repair source taken from the repository's git history",
+           "intersectHalfplanes_asIs_before_fix is compared with the function under test with the pre-repair allocation "
+           "line (3 * len(halfplanes) rows) put back"]
 
 MANIFEST = dict(
     text=("Lean theorems on the executable model of the contact-polygon code at exact real arithmetic, for all inputs: "
@@ -1807,16 +1945,20 @@ MANIFEST = dict(
           "EPSILON and lies on two non-parallel boundary lines), halfplane_is_trace (the 2-D test value equals the "
           "barycentric coordinate of the lifted 3-D point, any cart2plane), vertex_on_plane, vertex_inside_both_tetrahedra, "
           "pair_polygon_spec (regular exit of intersect_tetrahedron_pair), barycentric_lower_bound (pinv contract), "
-          "force_along_normal, area_nonneg, no_valid_point_no_polygon, reported_pairs_branches; obligation/defect theorems: "
-          "halfplane_buffer_sufficient_partial (general position: <= 2n rows), halfplane_buffer_sufficient_small (n <= 6), "
-          "swap_contact_plane, halfplane_buffer_overflow (8 concurrent lines: indexOOB), "
-          "halfplane_buffer_assert_asIs, makeHalfplanes_asIs_before_fix_gap, same_branch_asIs_counterexample. The model is "
+          "force_along_normal, pressure_lower_bound, area_nonneg, no_valid_point_no_polygon, reported_pairs_branches, "
+          "swap_contact_plane, halfplane_buffer_never_overflows (unconditional: for every list of half-planes, any n "
+          "incl. 0, intersect_halfplanes neither indexes its n(n-1)/2+1 row buffer out of range nor trips its assert), "
+          "halfplane_points_general_position (<= 2n points); repaired defects as before_fix/fixed pairs: "
+          "halfplane_buffer_overflow_before_fix/_fixed (8 concurrent lines: indexOOB with the 3n buffer, 28 points now), "
+          "halfplane_buffer_assert_before_fix/_fixed (7 concurrent lines, empty list), makeHalfplanes_asIs_before_fix_gap; "
+          "defect of the code as it is: same_branch_asIs_counterexample. The model is "
           "compared function by function with the implementation (lattice inputs exactly at Rat, random inputs at Float, "
           "body contacts) and an independent oracle (exact barycentric coordinates, plane residual, convexity, force, swap, "
           "separating axes) runs on tetrahedron pairs and factory bodies."),
     note=("trusted: Lean kernel + Mathlib, axioms propext/Classical.choice/Quot.sound; exact-real semantics (rounding not "
           "modelled); pinv/solve/argsort as parameters with contracts; correspondence harness (sampling); partial: convexity "
-          "of the angular order, order independence of the vertex set, buffer bound for n = 8. Known findings: "
-          "F-C15-same-branch, F-C15-vertex-drop, F-C15-halfplane-buffer."),
+          "of the angular order, order independence of the vertex set. Known findings: F-C15-same-branch, "
+          "F-C15-vertex-drop, F-C15-coincident-lines, F-C15-coincident-fields (F-C15-halfplane-buffer and F-make-halfplanes are repaired; their "
+          "witnesses run as regression inputs)."),
     technique="Lean 4 proof on hand-written model + correspondence (Rat-exact on lattice tetrahedra, Float on random ones)",
     design="§7 C15")
